@@ -28,6 +28,8 @@ type PD struct {
 	Lit  int
 }
 
+func scopePost(d *PD, s *PS) { vtr.Enter("scopePost", d, s) }
+
 func cvScopeE(v int) (int, error) {
 	vtr.Enter("cvScopeE", v)
 	if vtr.Fail("cvScopeE") {
@@ -110,7 +112,9 @@ func GenScoping(r *rand.Rand, oneToggle string) []*Iface {
 				}
 			}
 			// per-method lists with overlapping paths across methods
-			for _, cand := range [][]string{{"skip", "Same"}, {"skip", "/^S/"}, {"map", "Aux", "Same"}, {"map", "Aux", "Lit"}, {"literal", "Lit", "7"}, {"literal", "Same", "9"}, {"skip", "Lit"}, {"map", "Tc", "Val"}} {
+			for _, cand := range [][]string{{"skip", "Same"}, {"skip", "/^S/"}, {"map", "Aux", "Same"}, {"map", "Aux", "Lit"}, {"literal", "Lit", "7"}, {"literal", "Same", "9"}, {"skip", "Lit"}, {"map", "Tc", "Val"},
+				// patterns that match only when the case rule in effect for THIS method is off
+				{"skip", "same"}, {"skip", "/^s/"}, {"skip", "LIT"}} {
 				if r.Intn(5) == 0 {
 					m.Notations = append(m.Notations, Notation{Name: cand[0], Args: cand[1:]})
 				}
@@ -125,6 +129,17 @@ func GenScoping(r *rand.Rand, oneToggle string) []*Iface {
 			}
 			if style == "arg" && r.Intn(3) == 0 {
 				m.Notations = append(m.Notations, Notation{Name: "reverse"})
+			}
+			if _, rev := m.Get("reverse"); !rev {
+				// one hook shared by many methods (of different effective styles, with the destination declared by
+				// pointer or by value): how a method calls it is that method's own business
+				if r.Intn(3) == 0 {
+					m.Notations = append(m.Notations, Notation{Name: "postprocess", Args: []string{"scopePost"}})
+					m.PostSite = "scopePost"
+				}
+				if r.Intn(4) == 0 {
+					m.Dst.Type = "PD"
+				}
 			}
 			m.HasErr = r.Intn(4) == 0
 			if m.HasErr && r.Intn(2) == 0 {
